@@ -10,6 +10,8 @@ for name in sorted(os.listdir('seeded')):
     if only and not any(o in name for o in only):
         continue
     d = os.path.join('seeded', name)
+    if not os.path.isdir(d):
+        continue
     meta = json.load(open(os.path.join(d, 'meta.json')))
     r = subprocess.run(['git', '-C', '/repo', 'apply', os.path.abspath(os.path.join(d, 'patch.diff'))])
     if r.returncode != 0:
